@@ -26,7 +26,10 @@ GJ(g) ==
     JKV("ach", JSetArr({ JArr(<<JInt(a), ChgJ(g.ach[a])>>) : a \in DOMAIN g.ach })),
     JKV("bch", JSetArr({ JArr(<<JInt(BLo(b)), JInt(BHi(b)), ChgJ(g.bch[b])>>) : b \in DOMAIN g.bch })),
     JKV("comp", JSetArr({ JIds(c) : c \in Components(g) })),
-    JKV("valid", JBool(StereoValid(g))) >>)
+    JKV("valid", JBool(StereoValid(g))),
+    \* a descriptor over a missing atom / bond, or a change on a side where the bond does not exist:
+    \* ==, hash, reactant, product may refuse such a graph (see Outcomes)
+    JKV("odd", JBool(Dangling(g) \/ IllFormedSides(g))) >>)
 
 MapJ(m) == JSetArr({ JArr(<<JInt(x), JInt(m[x])>>) : x \in DOMAIN m })
 
